@@ -204,3 +204,10 @@ Definition reads_as_nocomment (text : string) (expected : list (string * (string
     String.eqb (fst x) (fst y) && String.eqb (fst (snd x)) (fst (snd y))
     && String.eqb (fst (snd (snd x))) (fst (snd (snd y)))
     && String.eqb (snd (snd (snd (snd x)))) (snd (snd (snd (snd y))))) (dump (read_text text)) expected.
+
+(* PROPOSED REPAIR of the client (not the current code; same idea as fix db0b708 in the Monte-Carlo driver): terminate
+   the base text before appending the overrides.  Proofs/TokenizerProofs.v proves the override clause of it without the
+   [terminated] hypothesis; the harness recognises this behaviour should the repository adopt it. *)
+Definition client_text_repaired (base : string) (params : list (string * string)) : string :=
+  let u := universal base in
+  (if complete u then u else u ++ String LF EmptyString) ++ cat (map param_line params).
